@@ -13,6 +13,7 @@ from __future__ import annotations
 
 from harness import inputs, progs, tl
 from harness import universe as U
+from harness.core import st
 from harness.oracles import exc_bucket
 
 ID = "C03"
@@ -142,6 +143,8 @@ def check_mapping_text(col):
 
 
 def per_program(p):
+    if p.data is not None and p.draw(st.integers(0, 2)) == 0:
+        p.warm("marshaller")   # the routines of the other direction built first
     try:
         vs = U.values(p.spec, p.mat, max_elems=3)
     except U._Exhausted:
